@@ -172,21 +172,38 @@ def _infer_hint_factory_collection_builtin(cls: type) -> Optional[object]:
     # all builtin collection types.
     types_collection_builtin = types & _COLLECTION_BUILTIN_TYPES
 
-    # Return either...
-    return (
-        # If this intersection is non-empty, this class subclasses one or more
-        # builtin collection types. In this case, reduce to this class as is.
-        # Since *ALL* builtin containers types are PEP 585-compliant
-        # subscriptable type hint factories under Python >= 3.9 (e.g.,
-        # "list[str]") and since this class subclasses a builtin container type,
-        # this subclass is necessarily also implicitly a PEP 585-compliant
-        # subscriptable type hint factory.
-        cls
-        if types_collection_builtin else
-        # Else, this intersection is empty, implying this class does *NOT*
-        # subclass a builtin collection type. In this case, reduce to a noop.
-        None
-    )
+    # If this intersection is empty, this class does *NOT* subclass a builtin
+    # collection type. In this case, reduce to a noop.
+    if not types_collection_builtin:
+        return None
+    # Else, this intersection is non-empty, implying this class subclasses one
+    # or more builtin collection types.
+
+    # If this class is subscriptable, reduce to this class as is. Since *MOST*
+    # builtin containers types are PEP 585-compliant subscriptable type hint
+    # factories under Python >= 3.9 (e.g., "list[str]"), *MOST* subclasses of
+    # builtin container types are also implicitly PEP 585-compliant
+    # subscriptable type hint factories.
+    if hasattr(cls, '__class_getitem__'):
+        return cls
+    # Else, this class is unsubscriptable. Notably, the builtin dictionary view
+    # types (e.g., "dict_keys") are unsubscriptable; so are their C-based
+    # subclasses (e.g., the "odict_keys" type of "OrderedDict.keys()" views).
+    # Subscripting this class would raise a "TypeError". Instead...
+
+    # For each superclass of this class in method resolution order (MRO)...
+    for cls_super in cls.__mro__:
+        # Hint factory describing this superclass if this superclass is a
+        # builtin collection type *OR* "None" otherwise.
+        hint_factory = _COLLECTION_BUILTIN_TYPE_TO_HINT_FACTORY_get(cls_super)
+
+        # If this superclass is a builtin collection type, return the hint
+        # factory describing this superclass (e.g., "KeysView" for "odict_keys").
+        if hint_factory:
+            return hint_factory
+
+    # Return "None" as a fallback. Note that this should *NEVER* happen.
+    return None
 
 # ....................{ PRIVATE ~ mappings                 }....................
 #FIXME: Also add:
